@@ -424,11 +424,11 @@ def split_top(s):
     return out
 
 
-def machine_q_stream(ctx, worlds, runs):
+def machine_q_stream(ctx, worlds, runs, stream="S-simq", every=2):
     cases = []
     idx = []
     for i, (w, r) in enumerate(zip(worlds, runs)):
-        if ctx.tier == "quick" and i % 2 == 1:
+        if ctx.tier == "quick" and every > 1 and i % every == 1:
             continue            # quick tier: every other run (the thorough tier feeds them all)
         if r["status"] == "adapter-error" or not r["log"] or r["sim_time"] is None or not r["counters"] or len(r["log"]) > MAX_LOG:
             continue
@@ -445,7 +445,7 @@ def machine_q_stream(ctx, worlds, runs):
         exp.append(pend if pend is not None else 0)
         cases.append(("(%s, %s)" % (gworld, gevs), exp, i))
         idx.append(i)
-    mism = cached_model_stream(ctx, "S-simq", HEADER_Q, "world * list qev", "(fun p => observe_q (fst p) (snd p))", cases, 10,
+    mism = cached_model_stream(ctx, stream, HEADER_Q, "world * list qev", "(fun p => observe_q (fst p) (snd p))", cases, 10,
                                ["Model/Sim.v", "Model/SimQ.v", "Model/EventQ.v", "Gen/Src_Task.v", "Gen/Src_TaskGraph.v", "Gen/Src_Event.v", "Model/Val.v"])
     return [(idx[k], mv, cases[k][1]) for k, mv in mism], len(cases)
 
@@ -695,7 +695,7 @@ def handlers_expected(run, nm):
     return glist(layout), glist(slow), pis, outs, None
 
 
-def handlers_stream(ctx, worlds, runs, outside=lambda w: False):
+def handlers_stream(ctx, worlds, runs, outside=lambda w: False, stream="S-handlers"):
     """S-handlers: the outcome of every TASK_PLACEMENT handler computed by Model/SimHandlers.v from the machine state vs
     the outcome observed on the implementation.  Returns ([(world index, ordinal of the handler, model outcome,
     implementation outcome)], number of runs fed, number of handlers compared by outcome kind)."""
@@ -725,7 +725,7 @@ def handlers_stream(ctx, worlds, runs, outside=lambda w: False):
     ctx.cov.setdefault("input_distribution", {})["sim_runs_not_fed_to_handler_model"] = skipped
     ctx.cov["input_distribution"]["placement_handlers_by_observed_outcome"] = dict(kinds)
     mism = cached_model_stream(
-        ctx, "S-handlers", HEADER_HANDLERS, "world * layout * list (Z * Z) * list place_in * list qev",
+        ctx, stream, HEADER_HANDLERS, "world * layout * list (Z * Z) * list place_in * list qev",
         "(fun p => match p with (W, Ly, SL, pis, l) => observe_handlers W Ly SL pis l end)", cases, 10,
         ["Model/Sim.v", "Model/SimQ.v", "Model/SimRows.v", "Model/SimHandlers.v", "Model/EventQ.v", "Gen/Src_Task.v",
          "Gen/Src_TaskGraph.v", "Gen/Src_Event.v", "Model/Val.v"])
